@@ -387,6 +387,13 @@ class BaseParser:
             )
         return result
 
+    @classmethod
+    def _alias_conflict(cls, a, b) -> bool:
+        try:
+            return bool(a != b)
+        except Exception:  # noqa: values that cannot even be compared (Decimal('sNaN'), ...) are not the same value
+            return True
+
     def parse_addition(self, key: str, value, context: RuntimeContext):
         if key in self.exclude_vars:
             # excluded vars cannot be carry in addition even if allowed
@@ -455,7 +462,7 @@ class BaseParser:
 
             if not options.ignore_alias_conflicts:
                 if name in result:  # or (excluded_keys and name in excluded_keys):
-                    if result[name] != value:
+                    if self._alias_conflict(result[name], value):
                         context.handle_error(exc.AliasConflictError(item=name, value=value))
                     continue
 
@@ -556,7 +563,7 @@ class BaseParser:
                         if unprovided(value):
                             value = data[alias]
                         else:
-                            if data[alias] != value:
+                            if self._alias_conflict(data[alias], value):
                                 context.handle_error(exc.AliasConflictError(item=name, value=data[alias]))
                                 break
 
